@@ -220,3 +220,49 @@ Section Term.
   Qed.
 
 End Term.
+
+(** ** The symbolic run is exact: when [sim_run] does not stop within [b] steps, the driver
+    really performs [b] consecutive reductions on that lookahead, whatever lies below the known
+    part of the stack.  So a table that fails [term_ok b] has a stack configuration
+    (two adjacent states and a lookahead) from which [Parse] reduces [b] times without reading
+    input; no table is rejected by [term_ok] for a reason other than such a run. *)
+Lemma sim_loop_hang tbl b : forall a known, sim_run b tbl a known = SimLoop ->
+  forall rest inp out, hd_error inp = a -> run b tbl (known ++ rest) inp out = Hang.
+Proof.
+  induction b as [|b IH]; intros a known Hs rest inp out Ha; [reflexivity|].
+  simpl in Hs. destruct known as [|s kn]; [discriminate|].
+  simpl. rewrite Ha.
+  destruct (find_action (t_action tbl) s a) as [[t|p|]|]; try discriminate.
+  destruct (length (body p) <? length (s :: kn)) eqn:Ek; [|discriminate].
+  apply Nat.ltb_lt in Ek.
+  change (s :: kn ++ rest) with ((s :: kn) ++ rest).
+  rewrite skipn_app.
+  replace (length (body p) - length (s :: kn)) with 0 by lia. simpl skipn at 2.
+  assert (Hne : skipn (length (body p)) (s :: kn) <> []).
+  { intros E. apply (f_equal (@length _)) in E. rewrite skipn_length in E. cbn [length] in E, Ek. lia. }
+  assert (Hp : peek (skipn (length (body p)) (s :: kn) ++ rest) = peek (skipn (length (body p)) (s :: kn))).
+  { destruct (skipn (length (body p)) (s :: kn)); [congruence|reflexivity]. }
+  rewrite Hp.
+  exact (IH a _ Hs rest inp (EvProd p :: out) Ha).
+Qed.
+
+Lemma sim_run_mono tbl b : forall a known k, sim_run b tbl a known = SimStop -> sim_run (b + k) tbl a known = SimStop.
+Proof.
+  induction b as [|b IH]; intros a known k H; [discriminate|].
+  simpl in *. destruct known as [|s kn]; auto.
+  destruct (find_action (t_action tbl) s a) as [[t|p|]|]; auto.
+  destruct (length (body p) <? length (s :: kn)); auto.
+Qed.
+
+Lemma sim_ok_mono tbl b b' a known : sim_ok b tbl a known = true -> b <= b' -> sim_ok b' tbl a known = true.
+Proof.
+  unfold sim_ok. intros H Hle. destruct (sim_run b tbl a known) eqn:E; [|discriminate].
+  replace b' with (b + (b' - b)) by lia. now rewrite (sim_run_mono _ _ _ _ _ E).
+Qed.
+
+Lemma term_ok_mono tbl b b' : term_ok b tbl = true -> b <= b' -> term_ok b' tbl = true.
+Proof.
+  unfold term_ok. intros H Hle. rewrite forallb_forall in *. intros a Ha. specialize (H a Ha).
+  apply andb_true_iff in H as [H1 H2]. apply andb_true_iff. split; [eapply sim_ok_mono; eauto|].
+  rewrite forallb_forall in *. intros [[s X] t] He. specialize (H2 _ He). simpl in *. eapply sim_ok_mono; eauto.
+Qed.
